@@ -32,7 +32,11 @@ def apply(obj, action, methods):
     except AssertionError as e:
         return ("FAIL", "AssertionError", str(e))
     except Exception as e:  # noqa: BLE001
-        return ("ERR", type(e).__name__, str(e))
+        # the reported type is the configuration error class if the exception is one (a subclass of the
+        # library's ImproperlyConfigured is still "a configuration error"), else its own class name
+        names = [c.__name__ for c in type(e).__mro__]
+        hit = [n for n in names if n in CONFIG_ERRORS]
+        return ("ERR", hit[0] if hit else names[0], str(e))
 
 
 def explore(make, actions, methods, canon, spec_init, spec_step, observe, max_depth, res,
